@@ -374,3 +374,42 @@ pub fn display_text(v: &RV) -> String {
         }
     }
 }
+
+/// Is `shown` the REAL `v` correctly rounded at the precision `shown` itself has (>= 2 decimals), or an exact numeral of `v`?
+/// Exact decimal arithmetic on the expansion of the double (no floating-point tolerance): a tie may go either way.
+pub fn decimal_rounding_ok(v: f64, shown: &str) -> bool {
+    if let Ok(x) = shown.parse::<f64>() { if x.to_bits() == v.to_bits() || (v.is_nan() && x.is_nan()) || (x == v && v != 0.0) { return true; } }
+    if !v.is_finite() { return false; }
+    let (neg, body) = match shown.strip_prefix('-') { Some(b) => (true, b), None => (false, shown) };
+    let (ip, fp) = match body.split_once('.') { Some((a, b)) => (a, b), None => (body, "") };
+    if ip.is_empty() || !ip.bytes().all(|c| c.is_ascii_digit()) || !fp.bytes().all(|c| c.is_ascii_digit()) || fp.len() < 2 || fp.len() > 1000 { return false; }
+    let d = fp.len();
+    let exact = format!("{:.1100}", v.abs());
+    let (ei, ef) = exact.split_once('.').unwrap_or((exact.as_str(), ""));
+    let lo: Vec<u8> = ei.bytes().chain(ef.bytes().take(d)).map(|c| c - b'0').collect();
+    let rem = &ef.as_bytes()[d..];
+    let rest_zero = rem[1..].iter().all(|c| *c == b'0');
+    let (allow_lo, allow_hi) = if rem[0] < b'5' { (true, false) } else if rem[0] == b'5' && rest_zero { (true, true) } else { (false, true) };
+    let mut hi = lo.clone();
+    { let mut i = hi.len(); loop { if i == 0 { hi.insert(0, 1); break; } i -= 1; if hi[i] == 9 { hi[i] = 0; } else { hi[i] += 1; break; } } }
+    let norm = |digits: &[u8]| -> Vec<u8> { let keep = d + 1; let mut s = digits.to_vec(); while s.len() > keep && s[0] == 0 { s.remove(0); } s };
+    let got: Vec<u8> = norm(&ip.bytes().chain(fp.bytes()).map(|c| c - b'0').collect::<Vec<u8>>());
+    let sign_ok = |cand: &[u8]| cand.iter().all(|c| *c == 0) || neg == v.is_sign_negative();
+    (allow_lo && got == norm(&lo) && sign_ok(&lo)) || (allow_hi && got == norm(&hi) && sign_ok(&hi))
+}
+
+#[cfg(test)]
+mod rounding_tests {
+    use super::decimal_rounding_ok as ok;
+    #[test]
+    fn roundings() {
+        assert!(ok(0.125, "0.12")); assert!(ok(0.125, "0.13")); assert!(!ok(0.125, "0.14"));
+        assert!(ok(0.615, "0.61")); assert!(!ok(0.615, "0.62"));
+        assert!(ok(-2.675, "-2.67")); assert!(!ok(-2.675, "-2.68")); assert!(!ok(-2.675, "2.67"));
+        assert!(ok(1e308, &format!("{:.2}", 1e308f64))); assert!(!ok(1e308, "inf"));
+        assert!(ok(-0.001, "-0.00")); assert!(ok(-0.001, "0.00")); assert!(ok(0.0, "0.00")); assert!(ok(-0.0, "-0.00"));
+        assert!(ok(9.999, "10.00")); assert!(ok(99.995, "99.99") || ok(99.995, "100.00")); assert!(ok(1.0 / 3.0, "0.33")); assert!(!ok(1.0 / 3.0, "0.34"));
+        assert!(ok(5e-324, "0.00")); assert!(ok(2.5, "2.5")); assert!(ok(2.5, "2.50")); assert!(!ok(2.5, "2.4")); assert!(ok(f64::INFINITY, "inf"));
+        assert!(ok(123456789.125, "123456789.12")); assert!(ok(123456789.125, "123456789.13")); assert!(ok(1e21, &format!("{:.2}", 1e21f64)));
+    }
+}
